@@ -113,6 +113,7 @@ func (sdc *signingDoneCheck) listen(
 					message,
 					attemptNumber,
 					attemptTimeoutBlock,
+					attemptMembersIndexes,
 				) {
 					continue
 				}
@@ -169,32 +170,56 @@ func (sdc *signingDoneCheck) waitUntilAllDone(ctx context.Context) (
 			return nil, 0, errWaitDoneTimedOut
 
 		case <-ticker.C:
-			if sdc.expectedSignersCount == len(sdc.doneSigners) {
-				var signature *tecdsa.Signature
-				var latestEndBlock uint64
-
-				for _, doneMessage := range sdc.doneSigners {
-					if signature == nil {
-						signature = doneMessage.signature
-					} else {
-						if !signature.Equals(doneMessage.signature) {
-							return nil, 0, fmt.Errorf(
-								"not matching signatures detected: [%v] and [%v]",
-								signature,
-								doneMessage.signature,
-							)
-						}
-					}
-
-					if doneMessage.endBlock > latestEndBlock {
-						latestEndBlock = doneMessage.endBlock
-					}
-				}
-
-				return &signing.Result{Signature: signature}, latestEndBlock, nil
+			result, latestEndBlock, allDone, err := sdc.checkAllDone()
+			if err != nil {
+				return nil, 0, err
+			}
+			if allDone {
+				return result, latestEndBlock, nil
 			}
 		}
 	}
+}
+
+// checkAllDone checks whether all expected signers confirmed the signing
+// and, if so, returns the signature they agree on along with the latest
+// of their end blocks. The done signers map is filled by the listening
+// goroutine so it must be read under the mutex.
+func (sdc *signingDoneCheck) checkAllDone() (
+	*signing.Result,
+	uint64,
+	bool,
+	error,
+) {
+	sdc.doneSignersMutex.Lock()
+	defer sdc.doneSignersMutex.Unlock()
+
+	if sdc.expectedSignersCount != len(sdc.doneSigners) {
+		return nil, 0, false, nil
+	}
+
+	var signature *tecdsa.Signature
+	var latestEndBlock uint64
+
+	for _, doneMessage := range sdc.doneSigners {
+		if signature == nil {
+			signature = doneMessage.signature
+		} else {
+			if !signature.Equals(doneMessage.signature) {
+				return nil, 0, false, fmt.Errorf(
+					"not matching signatures detected: [%v] and [%v]",
+					signature,
+					doneMessage.signature,
+				)
+			}
+		}
+
+		if doneMessage.endBlock > latestEndBlock {
+			latestEndBlock = doneMessage.endBlock
+		}
+	}
+
+	return &signing.Result{Signature: signature}, latestEndBlock, true, nil
 }
 
 // isValidDoneMessage validates the given signingDoneMessage in the context
@@ -205,10 +230,23 @@ func (sdc *signingDoneCheck) isValidDoneMessage(
 	message *big.Int,
 	attemptNumber uint64,
 	attemptTimeoutBlock uint64,
+	attemptMembersIndexes []group.MemberIndex,
 ) bool {
 	_, signerDone := sdc.doneSigners[doneMessage.senderID]
 	if signerDone {
 		// only one done message allowed
+		return false
+	}
+
+	// only members included in the attempt may confirm its completion
+	isAttemptMember := false
+	for _, attemptMemberIndex := range attemptMembersIndexes {
+		if attemptMemberIndex == doneMessage.senderID {
+			isAttemptMember = true
+			break
+		}
+	}
+	if !isAttemptMember {
 		return false
 	}
 
